@@ -299,6 +299,7 @@ def do_check(prop, tier, keep=False, only=None, verbose=False):
                     j2 = copy_job(j)
                     region = ' || '.join('(%s)' % f['region'] for f in fs)
                     j2.harness_pre = (j.harness_pre + '\n  __CPROVER_assume(!(%s));' % region)
+                    j2.canary = 'excluded-region-run'      # the unrestricted run already showed the function is reachable
                     r2 = R.run_job(j2, kernels[j.kernel], os.path.join(wd, 'excl'))
                     if r2.status == 'pass':
                         r.known = fs
